@@ -543,7 +543,14 @@ func (fr *Frame) binop(x *ssa.BinOp, st *State, c string) Val {
 	case token.SUB:
 		return bv(fx.wrap("(- "+x0+" "+y0+")", bits, signed, "sub"))
 	case token.MUL:
-		return bv(fx.wrap("(* "+x0+" "+y0+")", bits, signed, "mul"))
+		prod := fx.name("(* "+x0+" "+y0+")", "Int", "w")
+		if !signed && bits >= 2 && bits%2 == 0 {
+			// a valid ground fact of arithmetic, stated so that the common "both factors fit half the width" case
+			// needs no nonlinear reasoning: the product of two naturals below 2^(bits/2) is a natural below 2^bits
+			h := pow2(bits / 2)
+			fx.assert(implies(and("(<= 0 "+x0+")", "(< "+x0+" "+h+")", "(<= 0 "+y0+")", "(< "+y0+" "+h+")"), and("(<= 0 "+prod+")", "(< "+prod+" "+pow2(bits)+")")))
+		}
+		return bv(fx.wrap(prod, bits, signed, "mul"))
 	case token.QUO, token.REM:
 		fr.safety("div0", c, not(eq(y0, "0")), x, "integer division by zero")
 		if !signed {
